@@ -34,8 +34,9 @@ type udpOp struct {
 	Port0   bool     `json:"port0,omitempty"` // destination port 0: the kernel refuses the send (EINVAL)
 	// Kind "stray": not a client datagram but a datagram sent to the client's NAT socket by a
 	// sender the client never addressed (IPv4 or IPv6 loopback socket of the harness)
-	StrayV6 bool `json:"stray_v6,omitempty"`
-	Skipped bool `json:"skipped,omitempty"` // could not be run (the client had no known NAT socket): left out of the case
+	StrayV6 bool `json:"stray_v6,omitempty"`   // unused when a host of the client's own traffic is available
+	StrayK  int  `json:"stray_kind,omitempty"` // runtime: the target kind whose local address the stray sender uses (another port of a host the client talks to)
+	Skipped bool `json:"skipped,omitempty"`    // could not be run (the client had no known NAT socket): left out of the case
 	sport   int
 }
 type udpCaseSpec struct {
@@ -224,7 +225,14 @@ func runUDPCase(cs *udpCaseSpec) (obs []udpOpObs, tports []int, fatal string, sh
 	if other6 != nil {
 		defer other6.Close()
 	}
-	natPort := map[int]int{}      // client -> source port of its association, as seen at a target
+	natPort := map[int]int{}            // client -> source port of its association, as seen at a target
+	natLastKind := map[int]int{}        // client -> target kind of its last forwarded datagram
+	others := map[string]*net.UDPConn{} // a second socket on each target address: "another port of the same host"
+	defer func() {
+		for _, o := range others {
+			o.Close()
+		}
+	}()
 	natCS := map[int][2]int{}     // client -> cipher and secret of the key that opened its association
 	saltSeen := map[string]bool{} // salts of every reply datagram the clients received
 	portIdx := map[int]int{}
@@ -238,6 +246,7 @@ func runUDPCase(cs *udpCaseSpec) (obs []udpOpObs, tports []int, fatal string, sh
 			time.Sleep(udpNatTimeout + 400*time.Millisecond)
 			pendingIdx = map[int]int{} // every association is gone, also those that never sent
 			natPort = map[int]int{}
+			natLastKind = map[int]int{}
 			natCS = map[int][2]int{}
 			for _, e := range rec.snapshot(mark) {
 				if e.Kind == "remove" {
@@ -249,10 +258,33 @@ func runUDPCase(cs *udpCaseSpec) (obs []udpOpObs, tports []int, fatal string, sh
 		}
 		if op.Kind == "stray" {
 			np, okp := natPort[op.Client]
-			src := other4
+			// the sender: another port of the host the client last talked to (same IP, so that
+			// anything the server remembers per sender IP is put to the test), else a loopback socket
+			var src net.PacketConn
+			k, okk := natLastKind[op.Client]
+			if okk && targetKinds[k].ip != "" {
+				ip := targetKinds[k].ip
+				if others[ip] == nil {
+					if pc, err := net.ListenPacket("udp", net.JoinHostPort(ip, "0")); err == nil {
+						others[ip] = pc.(*net.UDPConn)
+					}
+				}
+				if others[ip] != nil {
+					src = others[ip]
+					op.StrayK = k
+				}
+			}
+			if src == nil {
+				op.StrayK = 0
+				src = other4
+				if op.StrayV6 {
+					src, op.StrayK = other6, 1
+				}
+			}
+			srcIP := net.ParseIP(targetKinds[op.StrayK].ip)
 			dst := fmt.Sprintf("127.0.0.1:%d", np)
-			if op.StrayV6 {
-				src, dst = other6, fmt.Sprintf("[::1]:%d", np)
+			if srcIP.To4() == nil {
+				dst = fmt.Sprintf("[::1]:%d", np)
 			}
 			if !okp || src == nil {
 				op.Skipped = true
@@ -413,6 +445,7 @@ func runUDPCase(cs *udpCaseSpec) (obs []udpOpObs, tports []int, fatal string, sh
 			}
 			ob.SockIdx = portIdx[m.src.Port]
 			natPort[op.Client] = m.src.Port
+			natLastKind[op.Client] = op.AKind
 			var recv [][]byte
 			for ri, rp := range op.Replies {
 				targets[m.target].WriteToUDP(genBytes(rp[0], uint32(rp[1])), m.src)
@@ -549,7 +582,7 @@ func udpOpTerm(op *udpOp, tports []int) string {
 		return "OExpireAll"
 	}
 	if op.Kind == "stray" {
-		return fmt.Sprintf("OStray %d %s %d %d %d", op.Client+1, cBool(op.StrayV6), op.sport, op.PLen, op.PSeed)
+		return fmt.Sprintf("OStray %d %d %d %d %d", op.Client+1, op.StrayK, op.sport, op.PLen, op.PSeed)
 	}
 	var k string
 	switch op.Kind {
